@@ -228,6 +228,9 @@ impl FeeSplitMonitor {
 
 impl Monitor for FeeSplitMonitor {
     fn after(&mut self, h: &Hist, pre: &Snap, post: &Snap, op: &Op, r: &OpResult, _l: &mut Local) -> Result<(), String> {
+        if let (Did::Rejected(code), Op::CollectProtocolFees { .. }) = (&r.did, op) {
+            return Err(format!("collect_protocol_fees by its authority was refused with {code}"));
+        }
         if r.did != Did::Ok {
             return Ok(());
         }
